@@ -9,7 +9,9 @@ Lay ==
     fields |-> [v \in Views |-> [n \in FieldNames(v) |-> FieldOf(v, n).w]],
     order  |-> [v \in Views |-> [i \in 1..Len(FieldsOf(v)) |-> FieldsOf(v)[i].name]],
     initviews |-> InitViews, legacyviews |-> LegacyViews, legacyinit |-> LegacyInitViews,
-    shared |-> Shared, commonalias |-> CommonAlias ]
+    shared |-> Shared, commonalias |-> CommonAlias,
+    legacyaliasnames |-> { a.macro : a \in LegacyAlias } \cup { a.macro : a \in LegacyMaxAlias },
+    legacystructnames |-> { s.name : s \in LegacyStructs } ]
 Init == d = 0 /\ PrintT(ToJson(Lay))
 Next == UNCHANGED d
 =============================================================================
